@@ -21,6 +21,8 @@ pub struct Block {
     base: usize, // address returned by the system allocator
     total: usize,
     balign: usize,
+    noise: bool,
+    tracked: bool,
 }
 
 #[derive(Clone, Copy, Debug)]
@@ -55,6 +57,8 @@ pub static PEAK_LIVE: AtomicUsize = AtomicUsize::new(0);
 pub static LIVE_BYTES: AtomicUsize = AtomicUsize::new(0);
 pub static LARGEST: AtomicUsize = AtomicUsize::new(0);
 pub static A1_ALLOCS: AtomicUsize = AtomicUsize::new(0);
+/// align-1 blocks allocated during tracked calls (not panic noise) and not yet freed
+pub static A1_TRACKED_LIVE: AtomicUsize = AtomicUsize::new(0);
 static mut STATE: State = State {
     blocks: [None; MAX_BLOCKS],
     nblocks: 0,
@@ -116,22 +120,23 @@ unsafe impl GlobalAlloc for Ledger {
         }
         std::ptr::write_bytes(base, RZ_BYTE, total);
         let serial = SERIAL.fetch_add(1, Ordering::Relaxed);
+        let noise = std::thread::panicking();
         lock();
         let s = st();
         // dense array of live blocks
         if s.nblocks < MAX_BLOCKS {
-            s.blocks[s.nblocks] = Some(Block { serial, addr: user, size, align, base: base as usize, total, balign });
+            s.blocks[s.nblocks] = Some(Block { serial, addr: user, size, align, base: base as usize, total, balign, noise, tracked: TRACK.load(Ordering::Relaxed) && !noise && align == 1 });
             s.nblocks += 1;
         } else {
             VIOLATIONS.fetch_add(1 << 20, Ordering::Relaxed); // table overflow: results are not trustworthy
         }
-        let noise = std::thread::panicking();
         push_event(Event { alloc: true, serial, size, align, noise, bad: 0 });
         let live = LIVE_BYTES.fetch_add(size, Ordering::Relaxed) + size;
         PEAK_LIVE.fetch_max(live, Ordering::Relaxed);
         if align == 1 && TRACK.load(Ordering::Relaxed) && !noise {
             LARGEST.fetch_max(size, Ordering::Relaxed);
             A1_ALLOCS.fetch_add(1, Ordering::Relaxed);
+            A1_TRACKED_LIVE.fetch_add(1, Ordering::Relaxed);
         }
         unlock();
         user as *mut u8
@@ -149,7 +154,11 @@ unsafe impl GlobalAlloc for Ledger {
                 }
             }
         }
-        let noise = std::thread::panicking();
+        // only blocks that were allocated while panicking (panic payload, message) are noise
+        let noise = match found {
+            Some((_, b)) => b.noise,
+            None => false,
+        };
         match found {
             None => {
                 push_event(Event { alloc: false, serial: 0, size: layout.size(), align: layout.align(), noise, bad: 1 });
@@ -168,6 +177,9 @@ unsafe impl GlobalAlloc for Ledger {
                 let back = std::slice::from_raw_parts((b.addr + b.size) as *const u8, b.total - lead - b.size);
                 if front.iter().any(|x| *x != RZ_BYTE) || back.iter().any(|x| *x != RZ_BYTE) {
                     bad = 3;
+                }
+                if b.tracked {
+                    A1_TRACKED_LIVE.fetch_sub(1, Ordering::Relaxed);
                 }
                 s.nblocks -= 1;
                 s.blocks[i] = s.blocks[s.nblocks];
